@@ -437,7 +437,7 @@ Definition dflt (s : option string) : string := match s with Some x => x | None 
 Definition params_of (o : optrec) : params :=
   {| p_path := o_content o;
      p_announce := hd "" (o_announce o);
-     p_announce_list := match o_announce o with [] => [[""]] | l => [l] end;
+     p_announce_list := match o_announce o with [] => [[""]] | a :: l => [a :: l] end;
      p_url_list := o_webseed o;
      p_httpseeds := o_httpseed o;
      p_comment := dflt (o_comment o);
